@@ -95,6 +95,7 @@ impl<'a> Oracle<'a> {
             "C08" => self.c08(&toks),
             "C09" => self.c09(&toks),
             "C11" => self.c11(&toks),
+            "C10" => self.c10(&toks),
             "C04" => self.c04(&toks),
             "C05" => self.c05(&toks),
             "C19" => self.c19(&toks),
@@ -713,6 +714,88 @@ impl<'a> Oracle<'a> {
                 let d = purr::verif::max_depth();
                 if d > nesting + 1 { return fail(format!("reading a string of {} characters with parenthesis nesting {} uses {} nested read_smiles activations", s.chars().count(), nesting, d)) }
                 "OK".to_string()
+            }
+            _ => "SKIP".to_string(),
+        }
+    }
+}
+
+/// what the property text of C10 says about a history, computed without the builder:
+/// (indices of unmatched ring digits, problematic closures as (closing head, opening head))
+pub fn closure_problems(evs: &[Ev]) -> (Vec<usize>, Vec<(usize, usize)>) {
+    let rev = |k: usize| match k { 6 => 7, 7 => 6, x => x };
+    let mut path: Vec<usize> = Vec::new();
+    let mut natoms = 0usize;
+    let mut bonded: Vec<(usize, usize)> = Vec::new();
+    let mut open: Vec<(usize, usize, usize, usize)> = Vec::new(); // rnum, head, kind, join index
+    let mut problems = Vec::new();
+    let mut jidx = 0usize;
+    for e in evs {
+        match e {
+            Ev::Root(_) => { path.push(natoms); natoms += 1 }
+            Ev::Extend(_, _) => { let h = *path.last().unwrap(); bonded.push((h.min(natoms), h.max(natoms))); path.push(natoms); natoms += 1 }
+            Ev::Pop(d) => { for _ in 0..*d { path.pop(); } }
+            Ev::Join(b, n) => {
+                let head = *path.last().unwrap();
+                if let Some(j) = open.iter().position(|x| x.0 == *n) {
+                    let (_, h0, k0, _) = open.remove(j);
+                    let pair = (h0.min(head), h0.max(head));
+                    let reconcilable = k0 == 0 || *b == 0 || k0 == rev(*b);
+                    if h0 == head || bonded.contains(&pair) || !reconcilable { problems.push((head, h0)) } else { bonded.push(pair) }
+                } else { open.push((*n, head, *b, jidx)) }
+                jidx += 1;
+            }
+        }
+    }
+    (open.iter().map(|x| x.3).collect(), problems)
+}
+
+impl<'a> Oracle<'a> {
+    fn check_build(&self, evs: &[Ev], what: &str) -> String {
+        let t = self.t;
+        let mut b = purr::graph::Builder::new();
+        if catch_unwind(AssertUnwindSafe(|| drive_follower(&mut b, evs))).is_err() {
+            return fail(format!("{}: the builder panics on a conformant history at {}", what, imp::last_panic()))
+        }
+        let (unmatched, problems) = closure_problems(evs);
+        match b.build() {
+            Ok(g) => {
+                if let Some(d) = graph_defect(&g) { return fail(format!("{}: build succeeds with an ill-formed graph: {}", what, d)) }
+                if !unmatched.is_empty() { return fail(format!("{}: build succeeds although ring digit #{} is unmatched", what, unmatched[0])) }
+                if !problems.is_empty() { return fail(format!("{}: build succeeds although the closure between atoms {:?} is irreconcilable, a self bond or a duplicate", what, problems[0])) }
+                let mut rec = Rec::new(t);
+                match catch_unwind(AssertUnwindSafe(|| purr::walk::walk(g, &mut rec))) {
+                    Ok(Ok(())) => "OK".to_string(),
+                    Ok(Err(e)) => fail(format!("{}: the traversal refuses a successfully built graph with {:?}", what, e)),
+                    Err(_) => if imp::last_panic().contains("join_pool") { "OK".to_string() } else { fail(format!("{}: the traversal panics on a built graph", what)) },
+                }
+            }
+            Err(purr::graph::Error::Rnum(i)) => {
+                if !unmatched.contains(&i) { return fail(format!("{}: build reports ring digit #{} as unmatched, unmatched digits are {:?}", what, i, unmatched)) }
+                "OK".to_string()
+            }
+            Err(purr::graph::Error::Join(a, bb)) => {
+                if !problems.contains(&(a, bb)) { return fail(format!("{}: build reports Join({}, {}), problematic closures are {:?}", what, a, bb, problems)) }
+                "OK".to_string()
+            }
+        }
+    }
+
+    // ---------------- C10: a successful build is a well-formed simple graph; build errors are real ----------------
+    fn c10(&mut self, toks: &[&str]) -> String {
+        match toks {
+            ["EVS", rest @ ..] => {
+                let evs: Option<Vec<Ev>> = if rest.len() == 1 && rest[0] == "-" { Some(vec![]) } else { rest.iter().map(|x| Ev::parse(x)).collect() };
+                let evs = match evs { Some(e) => e, None => return "SKIP".to_string() };
+                if imp::proto_violation(&evs).is_some() { return "SKIP".to_string() }
+                self.check_build(&evs, "history")
+            }
+            ["READ", h] => {
+                let s = match unhex(h) { Some(s) => s, None => return "SKIP".to_string() };
+                match read_events(self.t, &s) {
+                    Ok(evs) => self.check_build(&evs, &format!("accepted string {:?}", s)),
+                    Err(_) => "SKIP".to_string(),
+                }
             }
             _ => "SKIP".to_string(),
         }
